@@ -6,9 +6,10 @@ sys.path.insert(0, os.path.join(VERIF, 'driver'))
 import props as P
 
 ALL = ['C%02d' % i for i in range(1, 21)]
+CLAIMED = [l.strip() for l in open(os.path.join(VERIF, 'driver', 'claimed.txt')) if l.strip() and not l.startswith('#')]
 checks, na = [], []
 for pid in ALL:
-    if pid in P.PROPS:
+    if pid in P.PROPS and pid in CLAIMED:
         s = P.PROPS[pid]
         checks.append({
             'property_id': pid,
